@@ -340,6 +340,11 @@ func (c *Context) BindValidRequest(request *http.Request, route *MatchedRoute, b
 			}
 			if len(res) == 0 {
 				cons, ok := route.Consumers[ct]
+				if !ok && len(route.Consumes) > 0 {
+					// admitted through a wildcard entry ("type/*", "*/*"): the route's table is keyed by the
+					// consumes entries, the consumer is the one registered for the media type of the request
+					cons, ok = c.api.ConsumersFor([]string{ct})[ct]
+				}
 				if !ok {
 					res = append(res, errors.New(http.StatusInternalServerError, "no consumer registered for %s", ct))
 				} else {
